@@ -12,12 +12,12 @@ use crate::report::{show, CaseOut};
 use crate::rng::{mix, Rng};
 use crate::session::Session;
 
-const HISTORIES_QUICK: u64 = 64;
+const HISTORIES_QUICK: u64 = 128;
 const HISTORIES_THOROUGH: u64 = 600;
 
 pub fn plan(tier: &str) -> u64 {
     match tier {
-        "quick" => HISTORIES_QUICK + 48,
+        "quick" => HISTORIES_QUICK + 96,
         _ => HISTORIES_THOROUGH + 480,
     }
 }
